@@ -776,6 +776,8 @@ def run(ctx):
 
 _P = 'billiard/pool.py'
 MUTANTS = [
+    ('lost-worker-record-without-a-live-exception', 'billiard/pool.py', '        except WorkerLostError:\n            job._set(None, (False, ExceptionInfo()))\n', '        except KeyError:\n            job._set(None, (False, ExceptionInfo()))\n', 'R01.17'),
+    ('hard-limit-not-enforced-when-the-worker-is-gone', 'billiard/pool.py', "        if job.ready():\n            return\n        debug('hard time limit exceeded for %r', job)\n", "        if job.ready():\n            return\n        if not self._process_by_pid(job._worker_pid)[0]:\n            return\n        debug('hard time limit exceeded for %r', job)\n", 'R01.18'),
     ('feeder-evicts-a-job-whose-part-could-not-be-sent', _P, "                        try:\n                            cache[job]._set(ind, (False, ExceptionInfo()))\n                        except KeyError:\n                            pass\n", "                        try:\n                            cache[job]._set(ind, (False, ExceptionInfo()))\n                        except KeyError:\n                            pass\n                        cache.pop(job, None)\n", 'R01.15'),
     ('result-for-a-suspected-job-discarded', _P, "            if not item.ready():\n                if putlock is not None:\n                    putlock.release()\n            try:\n                item._set(i, obj)", "            if item.ready() or item._worker_lost:\n                return\n            if putlock is not None:\n                putlock.release()\n            try:\n                item._set(i, obj)", 'R01.16'),
     ('imap-pins-positionless-failure-on-the-next-part', _P, "    def _set(self, i, obj):\n        with self._cond:\n            if self._index == i:", "    def _set(self, i, obj):\n        with self._cond:\n            if i is None:\n                i = self._index\n            if self._index == i:", 'R01.13'),
